@@ -46,9 +46,18 @@ func setup4(args ...string) (handler.Handler4, error) {
 			return Handler4, errors.New("expected a destination subnet, got: " + fields[0])
 		}
 
+		// the option can only carry IPv4 routes (RFC3442), and encoding anything
+		// else panics or truncates: refuse it here rather than on the first request
+		if route.Dest.IP.To4() == nil || len(route.Dest.Mask) != net.IPv4len {
+			return Handler4, errors.New("expected an IPv4 destination subnet, got: " + fields[0])
+		}
+
 		route.Router = net.ParseIP(fields[1])
 		if route.Router == nil {
 			return Handler4, errors.New("expected a gateway address, got: " + fields[1])
+		}
+		if route.Router.To4() == nil {
+			return Handler4, errors.New("expected an IPv4 gateway address, got: " + fields[1])
 		}
 
 		routes = append(routes, route)
